@@ -287,7 +287,9 @@ theorem EscrowSplit.rewrite {s s' : State} {j : Nat} {x x' : Sub} (hi : EscrowSp
     rcases hS with hS | ⟨hS, _⟩
     · rw [hS, Tbl.get_set_ne _ _ (Ne.symm hne)]
     · rw [hS]
-  · intro a d; rw [escrowOf_deposits hdep, contrib_some hx, contrib_some hg, hR a d]; omega
+  · intro a d
+    have e : escrowOf s' a d = escrowOf s a d := by unfold escrowOf; rw [hdep]
+    rw [e, contrib_some hx, contrib_some hg, hR a d]; omega
   · intro y hy; rw [hg] at hy; cases hy; exact hW
 
 /-! ### escrow records under the deposit keeper's writes -/
